@@ -85,7 +85,7 @@ impl ProgressTracker for Probe {
 }
 
 pub fn run(tier: Tier, shard: Shard, stats: &mut Stats) {
-    let vals: Vec<u64> = vec![0, 1, 5, 999, 1_000_000, (1 << 53) + 1, u64::MAX - 1, u64::MAX];
+    let vals: Vec<u64> = vec![0, 1, 5, 995, 999, 1000, 1_000_000, (1 << 53) + 1, u64::MAX - 1, u64::MAX];
     let mut pairs: Vec<(u64, Option<u64>)> = Vec::new();
     for &p in &vals {
         for &l in &vals {
@@ -348,7 +348,7 @@ pub fn meta(tier: Tier) -> Meta {
     let _ = tier;
     Meta {
         level: "exploration",
-        rule: "every documented key except the geometry/truncation keys (25 keys) alone in a template x 72 position/length pairs incl. 0, length<position, unknown length, 2^53+1, u64::MAX x 3 statuses x 3-5 frozen elapsed times (0.4 s .. 400 d) x 0-2 earlier updates x tick counts; rendered text must equal the public getter at the same frozen instant pushed through the public formatter; plus every sequence of <= 4 (6 thorough) operations from {tick, inc, set_position, set_length, reset, finish, set_message, suspend with a closure that takes 2 s, println, set_draw_target(visible)} on a bar with a recording ProgressTracker and {elapsed_precise}, created visible or hidden: every frame painted by an operation and the final frame equal the getters of that instant, one tracker tick per bar tick, one tracker reset per reset() seeing the reset state; distinct = (key, rendered text); non-trivial = non-zero position or elapsed > 0.4 s".into(),
+        rule: "every documented key except the geometry/truncation keys (25 keys) alone in a template x 110 position/length pairs incl. 0, length<position, unknown length, 2^53+1, u64::MAX x 3 statuses x 3-5 frozen elapsed times (0.4 s .. 400 d) x 0-2 earlier updates x tick counts; rendered text must equal the public getter at the same frozen instant pushed through the public formatter; plus every sequence of <= 4 (6 thorough) operations from {tick, inc, set_position, set_length, reset, finish, set_message, suspend with a closure that takes 2 s, println, set_draw_target(visible)} on a bar with a recording ProgressTracker and {elapsed_precise}, created visible or hidden: every frame painted by an operation and the final frame equal the getters of that instant, one tracker tick per bar tick, one tracker reset per reset() seeing the reset state; distinct = (key, rendered text); non-trivial = non-zero position or elapsed > 0.4 s".into(),
         assumptions: vec!["virtual clock frozen between the draw and the getter calls, so time-dependent keys are comparable exactly".into(), "percent may be computed from the f32 or the f64 quotient".into()],
         bounds: json!({"keys": KEYS.len() - 3}),
         exhaustive: true,
